@@ -40,8 +40,8 @@ from .speclib import mk
 NaN = float("nan")
 B_FACT_SMALL = (0.0, 2.5, NaN)
 GRID = (0.0, 1.0, 2.5, -3.0, NaN)
-WGRID = (0.0, 2.0, 0.5, NaN)
-WGRID_VALID = (0.0, 0.5, 2.0)
+WGRID = (0.0, 2.0, 0.7, NaN)  # 0.7 (with 0.1 below) is non-dyadic on purpose: differencing residues must not change the missing set
+WGRID_VALID = (0.0, 0.7, 0.1)
 FORMATS = (("nan", NaN), ("tuple0", (0, False)), ("tupleS", (-7.5, False)), ("plain", 0))
 FACT_AGGS = ("valid_count", "sum", "mean")
 # the NaN format is the reference of the relational clauses: every design row runs it plus the
@@ -391,6 +391,20 @@ def run_case(cb, agg, fact, weights, ignore, xdt, st, formats=FORMATS, fact_form
             st.call(N > 0, {"cube": kind, "case": case, "format": fname})
             if out is not FAILED:
                 outs[kind, fname] = obs(out, fname)
+    # ---- C03 "agree": the natural use hands the SAME caller-owned arrays to the array cube and then to the index cube
+    #      (added after a seeded in-place write in xfunc_mean.__init__ made only the *later* call wrong)
+    if agg != "count" and cubes["ccube"] not in (None, FAILED) and cubes["xcube"] not in (None, FAILED) and ("ccube", "nan") in outs:
+        fs, ws = copy_var(fact), copy_var(weights)
+        CA.CASE_CLS, CA.CASE_DESC = dict(cls, cube="shared", format="nan"), case
+        first = _try(lambda: getattr(cubes["xcube"], agg)(fs, ws, ignore, NaN))
+        second = _try(lambda: getattr(cubes["ccube"], agg)(fs, ws, ignore, NaN))
+        if first is not FAILED and second is not FAILED:
+            o2 = obs(second, "nan")
+            ref = outs["ccube", "nan"]
+            same = o2[0].shape == ref[0].shape and np.array_equal(o2[1], ref[1]) and bool(np.array_equal(o2[0][~ref[1]], ref[0][~ref[1]]))
+            MON.check("cubes.%s/agree-when-both-cubes-are-given-the-same-caller-arrays" % agg, bool(same),
+                      lambda: "ccube result after the array cube used the same arrays: %r missing %r; with private copies: %r missing %r" % (
+                          o2[0].tolist(), o2[1].astype(int).tolist(), ref[0].tolist(), ref[1].astype(int).tolist()), {"case": case}, dict(cls, cube="shared"))
     CA.CASE_CLS, CA.CASE_DESC = cls, case
     shortcut = agg == "valid_count" and not ignore  # with the plain format: excluded by C04
     # ---- C04: the report formats describe the same missing set and identical values elsewhere
